@@ -58,7 +58,7 @@ def mirror(tr, exp):
     return None
 
 
-def run_agm(pid, tier, seed, fams, mutants, rule, assumptions, sample=None):
+def run_agm(pid, tier, seed, fams, mutants, rule, assumptions, sample=None, replicas=1):
     t0 = time.time()
     verdict = vlib.Verdict(pid)
     states = trans = 0
@@ -87,9 +87,18 @@ def run_agm(pid, tier, seed, fams, mutants, rule, assumptions, sample=None):
         if r.ok and not r.violated:
             raise vlib.MachineryError("model mutant %s on %s/%d not rejected (vacuity guard)" % (sw, fam, depth))
         killed.append({"switch": sw, "family": fam, "rejected_by": r.violated or "TLC evaluation error (crash of the mutated machine)"})
+    # every program is replayed `replicas` times under different harness variants (operator vs function call form,
+    # registration API of the user primitive, grad() vs make_vjp, single vs repeated application of the VJP function)
+    base = cases
+    cases = []
+    for i, c in enumerate(base):
+        v0 = rng.randrange(30)
+        for r in range(replicas):
+            d = dict(c)
+            d["variant"] = (v0 + 11 * r) % 30
+            cases.append(d)
     for i, c in enumerate(cases):
         c["id"] = i + 1
-        c["variant"] = (i + seed) % 30
     # replay (the exported model result / den stay on this side; the worker gets id + prog + variant)
     work = [{"id": c["id"], "prog": c["prog"], "variant": c["variant"], "schedule": c["sched"] if len(c["prog"]["threads"]) > 1 else []}
             for c in cases]
@@ -207,6 +216,22 @@ def c19(tier, seed, replay=None):
                    "differentiations in the same process; all programs of one worker process run in sequence, so every program also runs after the "
                    "failures of its predecessors",
                    ASSUME)
+
+
+def c17(tier, seed, replay=None):
+    if replay:
+        return _replay("C17", replay)
+    q = tier == "quick"
+    fams = [("ext1", 3 if q else 4, 1500 if q else None), ("ext2", 2 if q else 3, 1200 if q else 8000), ("ckpt", 2, None)]
+    return run_agm("C17", tier, seed, fams, [],
+                   "ext1: product primitive of arity 1..3 (thorough 4) x every non-empty subset of differentiated positions x every rule table over "
+                   "{rule, None, missing} x keyword argument x both modes; ext2: arguments assigned to trace levels {inner variable, enclosing "
+                   "variable, constant} under a depth-2 nesting whose outer level differentiates the inner derivative (rules are traced); each "
+                   "program is replayed with the primitive registered through defvjp / defvjp(argnums=) / defvjp_argnum / defvjp_argnums and "
+                   "defjvp / defjvp_argnum / def_linear / 'same' (rotating with the case index); ckpt: checkpoint(body)(args) must equal the plain "
+                   "call in value and in derivatives of order 1 and 2, incl. nested checkpoints and a traced closure",
+                   ASSUME + ["the user rule computes g * scale * prod(other args) + (ans - scale*prod(args)) * g, so a wrong ans or wrong argument "
+                             "values handed to the rule change the result"], replicas=3 if q else 6)
 
 
 def c20(tier, seed, replay=None):
